@@ -123,14 +123,18 @@ def lean_check(prop, tier='quick'):
         gen_mod = mod + 'Gen'
         has_gen = os.path.exists(os.path.join(LEAN, 'Sucds', 'Props', prop + 'Gen.lean'))
         t0 = time.time()
-        r = subprocess.run(['lake', 'build', mod, 'sucds_model', 'Sucds.Gen.Fns'] + ([gen_mod] if has_gen else []), cwd=LEAN, capture_output=True, text=True, env=ENV)
+        r = subprocess.run(['lake', 'build', mod, 'sucds_model', 'Sucds.Gen.Fns', 'Sucds.Gen.Current'] + ([gen_mod] if has_gen else []), cwd=LEAN, capture_output=True, text=True, env=ENV)
         res['lake_s'] = round(time.time() - t0, 1)
         mods = lean_imports(mod)
         if has_gen: mods = mods | lean_imports(gen_mod)
         try:
             rep = json.load(open(os.path.join(BUILD, 'gen_fns_report.json')))
             res['translator'] = {'functions_translated': len(rep['translated']), 'not_translated': len(rep['untranslated']), 'parse_errors': rep['parse_errors'],
-                                 'rejected_by_lean': rep.get('rejected_by_lean', [])}
+                                 'rejected_by_lean': rep.get('rejected_by_lean', []),
+                                 'rewritten_functions_proved_equal_to_the_pinned_translation': rep.get('bridged', []),
+                                 'rewritten_functions_not_proved_equal': rep.get('changed_not_bridged', [])}
+            if rep.get('bridged'):
+                print('NOTE property=%s the translation of %s differs from the pinned one and is proved equal to it for every input (lean/Sucds/Gen/Current.lean): behaviour-preserving rewrite' % (prop, ', '.join(rep['bridged'])))
             # how many generated definitions are mentioned by a theorem of the equivalence / generated-level property files
             import glob
             text = ''.join(open(f).read() for f in glob.glob(os.path.join(LEAN, 'Sucds', 'Proofs', 'Gen*.lean')) + glob.glob(os.path.join(LEAN, 'Sucds', 'Proofs', 'C*GenAux.lean')) + glob.glob(os.path.join(LEAN, 'Sucds', 'Props', '*Gen.lean')))
